@@ -2,3 +2,4 @@ pub mod kv;
 pub mod prefix;
 pub mod addr;
 pub mod bank;
+pub mod builder;
